@@ -171,6 +171,10 @@ pub trait Prop: Sync {
     fn encode(&self, case: &Self::Case, kv: &mut Kv);
     fn decode(&self, kv: &Kv) -> Option<Self::Case>;
     fn sample(&self, case: &Self::Case) -> Json;
+    /// Upper bound on worker threads (components whose single run holds hundreds of MiB).
+    fn max_threads(&self) -> usize {
+        usize::MAX
+    }
 }
 
 pub struct Found<C> {
@@ -226,7 +230,7 @@ pub fn search<P: Prop>(p: &P, opts: &Opts) -> Outcome<P::Case> {
     let results: Mutex<(Stats, Vec<Found<P::Case>>, Vec<u64>)> =
         Mutex::new((Stats::default(), vec![], vec![]));
     let start = Instant::now();
-    let threads = opts.threads.max(1);
+    let threads = opts.threads.max(1).min(p.max_threads().max(1));
     {
         let mut cur = CURRENT.lock().unwrap();
         cur.clear();
